@@ -107,7 +107,7 @@ def run_variant(v, baseline):
         else:
             ok = code == baseline
             if not ok and v.get("known_false_alarm"):
-                print("   known false alarm (DESIGN 8.14): %s in %s, exit %d, rules %s" % (v["name"], v["prop"], code, sorted(set(rules))[:6]))
+                print("   known false alarm (DESIGN 8.14, 8.20): %s in %s, exit %d, rules %s" % (v["name"], v["prop"], code, sorted(set(rules))[:6]))
                 ok = True
         return dict(v_name=v["name"], kind=v["kind"], ok=ok, skipped=False, exit=code, rules=rules, wall=round(time.time() - t0, 2),
                     detail="" if ok else tail[-600:])
